@@ -67,3 +67,63 @@ def load_saved(path):
     import pickle
     with open(path, "rb") as f:
         return pickle.load(f)
+
+GROUP = {"A": "A", "T": "T", "C": "C", "G": "G", "R": "AG", "Y": "CT", "W": "AT", "S": "CG", "M": "AC", "K": "GT",
+         "B": "CGT", "V": "ACG", "D": "AGT", "H": "ACT", "N": "ACGT"}
+BCOMP = {"A": "T", "T": "A", "C": "G", "G": "C"}
+
+def fill_design(eq, wc, st, rng):
+    """a nucleotide string satisfying the arrays (0-based, None at blanks), chosen with rng"""
+    S = [" "] * len(eq)
+    for i in range(len(eq)):
+        if eq[i] is None:
+            continue
+        if eq[i] != i:
+            S[i] = S[eq[i]]
+        elif wc[i] is not None and wc[i] < i:
+            S[i] = BCOMP[S[wc[i]]]
+        else:
+            S[i] = rng.choice(GROUP[st[i]])
+    return "".join(S)
+
+def check_arrays(eq, wc, st, S):
+    """does S satisfy the arrays?"""
+    for i in range(len(eq)):
+        if eq[i] is None:
+            if S[i] != " ": return "blank expected at %d" % i
+            continue
+        if S[i] not in GROUP[st[i]]: return "base %s at %d not in %s" % (S[i], i, st[i])
+        if S[i] != S[eq[i]]: return "eq violated at %d" % i
+        if wc[i] is not None and S[i] != BCOMP[S[wc[i]]]: return "wc violated at %d" % i
+    return None
+
+def designer_arrays(pilpath, struct_orient=False):
+    import contextlib, io
+    from peppercompiler.design.constraint_load import Convert
+    err = io.StringIO()
+    try:
+        with contextlib.redirect_stdout(err), contextlib.redirect_stderr(err):
+            conv = Convert(pilpath, struct_orient)
+            eq, wc, st = conv.get_constraints()
+        return {"outcome": "ok", "eq": eq, "wc": wc, "st": st}, conv
+    except SystemExit:
+        return {"outcome": "rejected", "error": "exit " + err.getvalue()[-200:]}, None
+    except Exception as e:
+        return {"outcome": "rejected", "error": "%s: %s" % (type(e).__name__, e)}, None
+
+def finish_pipeline(d, conv, nts, strands_file=True):
+    """process_results -> .mfe -> finish against d/out.save; returns dict(outcome, seqs text, strands text)"""
+    import contextlib, io
+    from peppercompiler import finish as F
+    err = io.StringIO()
+    mfe = os.path.join(d, "out.mfe"); seqs = os.path.join(d, "out.seqs"); strands = os.path.join(d, "out.strands")
+    try:
+        with contextlib.redirect_stdout(err), contextlib.redirect_stderr(err):
+            conv.process_results(nts)
+            conv.output(mfe, findmfe=False)
+            F.finish(os.path.join(d, "out.save"), mfe, seqs, strands if strands_file else None, False, False, 24, 100000, 25.0, 1.0, False, 10.0)
+        return {"outcome": "ok", "mfe": open(mfe).read(), "seqs": open(seqs).read(), "strands": open(strands).read() if strands_file else None}
+    except SystemExit:
+        return {"outcome": "failed", "error": "exit " + err.getvalue()[-300:]}
+    except Exception as e:
+        return {"outcome": "failed", "error": "%s: %s" % (type(e).__name__, e)}
